@@ -104,7 +104,7 @@ PRIORS = [
             '<a:r><a:rPr lang="en-US" i="1"/><a:t> ital</a:t></a:r></a:p>'),
 ]
 PRIOR_NAMES = [n for n, _ in PRIORS]
-LEVELS = ["frame", "cell", "para", "run"]
+LEVELS = ["frame", "cell", "para", "run", "shape"]  # "shape" = Shape.text, documented as the frame-level assignment
 BATCH = 500
 
 
@@ -264,12 +264,15 @@ def do_op(H, host, pre, level, s, judged=True):
             # model of _Paragraph.add_run(): "a new run appended to the runs in this paragraph"
             mpre = list(pre)
             mpre[pi] = dict(pre[pi], items=pre[pi]["items"] + [("r", "")])
-        exp = T.predict(mpre, level, s, pi)
+        exp = T.predict(mpre, "frame" if level == "shape" else level, s, pi)
     tf = H.tf(host)
     try:
         if level == "frame":
             tf.text = s
             got = tf.text
+        elif level == "shape":
+            H.tb.text = s
+            got = H.tb.text
         elif level == "cell":
             H.cell.text = s
             got = H.cell.text
@@ -459,7 +462,7 @@ def _pair_worker(part, chunk):
     best = {}
     for (pri, l1, s1i) in (u for group in chunk for u in group):
         prior, level1, s1 = PRIOR_NAMES[pri], LEVELS[l1], _PAIRSTR[s1i]
-        plan = [("cell", LEVELS)] if level1 == "cell" else [("tb", ["frame", "para", "run"]), ("cell", ["cell"])]
+        plan = [("cell", ["frame", "cell", "para", "run"])] if level1 == "cell" else [("tb", ["frame", "para", "run", "shape"]), ("cell", ["cell"])]
         for host, levels2 in plan:
             H.set_prior(host, prior)
             fails1, post1, _ = do_op(H, host, H.prior_obs[prior], level1, s1, True)
@@ -640,7 +643,8 @@ def run(ctx):
         bins[b].append(u)
         heapq.heappush(heap, (load + 4 * closed_form(npair - len(_PAIRSTR[u[2]])) + 2, b))
     fanout(ctx, _pair_worker, ctx.rotate(bins), chunk_size=1)
-    exp2 = len(PRIORS) * 16 * sum(len(S) ** i * closed_form(npair - i) for i in range(npair + 1))
+    # level pairs: first level "cell" -> 4 second levels on the cell; each of the 4 other first levels -> 5 second levels
+    exp2 = len(PRIORS) * 24 * sum(len(S) ** i * closed_form(npair - i) for i in range(npair + 1))
     if ctx.counters.get("pair_cases", 0) != exp2:
         raise HarnessError("pair cases %d != closed form %d" % (ctx.counters.get("pair_cases", 0), exp2))
     precs = sorted(ctx.sets.pop("_failp", set()))
